@@ -41,14 +41,21 @@ fn raw<P: Instrumented>(problem: &P, i: &Individual<P>) -> RawInd {
     RawInd { sol: P::show(i.solution()), obj, fresh }
 }
 
+fn p_second(prev: &Mutex<PsoPrev>) -> bool {
+    prev.lock().unwrap().second
+}
+
 #[derive(Default)]
 struct PsoPrev {
+    second: bool,
     xs: Vec<Vec<f64>>,
     vs: Vec<Vec<f64>>,
     w: f64,
 }
 
-fn pso_extra(params: &Value, n: u32) -> Extra<RealProblem> {
+/// `two`: the run has a second swarm with identifier A (after a first phase with the default identifier); as soon as
+/// the A states exist they are the ones observed.
+fn pso_extra(params: &Value, n: u32, two: bool) -> Extra<RealProblem> {
     let v_max = params["v_max"].as_f64().unwrap();
     let (c1, c2) = (params["c_one"].as_f64().unwrap(), params["c_two"].as_f64().unwrap());
     let (start, end) = (params["start_weight"].as_f64().unwrap(), params["end_weight"].as_f64().unwrap());
@@ -61,10 +68,35 @@ fn pso_extra(params: &Value, n: u32) -> Extra<RealProblem> {
             .ok()
             .and_then(|p| p.get_current().map(|c| c.iter().map(|i| i.solution().clone()).collect()))
             .unwrap_or_default();
-        let vs: Option<Vec<Vec<f64>>> = state.try_borrow::<ParticleVelocities<Global>>().ok().map(|v| (**v).clone());
-        let pb = state.try_borrow::<BestParticles<P, Global>>().ok();
-        let gb = state.try_borrow::<BestParticle<P, Global>>().ok();
-        let w = state.try_get_value::<InertiaWeight<ParticleVelocitiesUpdate>>().ok();
+        use mahf::identifier::A;
+        let second = two && state.contains::<ParticleVelocities<A>>();
+        let vs: Option<Vec<Vec<f64>>> = if second {
+            state.try_borrow::<ParticleVelocities<A>>().ok().map(|v| (**v).clone())
+        } else {
+            state.try_borrow::<ParticleVelocities<Global>>().ok().map(|v| (**v).clone())
+        };
+        let pb: Option<Vec<Individual<P>>> = if second {
+            state.try_borrow::<BestParticles<P, A>>().ok().map(|b| (**b).clone())
+        } else {
+            state.try_borrow::<BestParticles<P, Global>>().ok().map(|b| (**b).clone())
+        };
+        let gb: Option<Option<Individual<P>>> = if second {
+            state.try_borrow::<BestParticle<P, A>>().ok().map(|b| (**b).clone())
+        } else {
+            state.try_borrow::<BestParticle<P, Global>>().ok().map(|b| (**b).clone())
+        };
+        let w = if second {
+            state.try_get_value::<InertiaWeight<ParticleVelocitiesUpdate<A>>>().ok()
+        } else {
+            state.try_get_value::<InertiaWeight<ParticleVelocitiesUpdate>>().ok()
+        };
+        // the observed swarm changes (second swarm set up): nothing to compare this record with
+        let switched = second != p_second(&prev);
+        if switched {
+            let mut p = prev.lock().unwrap();
+            *p = PsoPrev::default();
+            p.second = second;
+        }
         let progress = state.try_get_value::<Progress<ValueOf<Iterations>>>().ok();
         let mut p = prev.lock().unwrap();
         let vmax_ok = vs.as_ref().map(|vs| vs.iter().flatten().all(|v| v.abs() <= v_max)).unwrap_or(true);
@@ -125,7 +157,7 @@ fn pso_extra(params: &Value, n: u32) -> Extra<RealProblem> {
         let x = json!({
             "np": xs.len(), "nv": vs.as_ref().map(|v| v.len() as i64).unwrap_or(-1),
             "npb": pb.as_ref().map(|b| b.len() as i64).unwrap_or(-1),
-            "vmax_ok": vmax_ok as i64, "moved": moved, "vexact": vexact, "wexact": wexact, "wsched": wsched,
+            "vmax_ok": vmax_ok as i64, "moved": moved, "vexact": vexact, "wexact": wexact, "wsched": wsched, "sw": switched as i64,
             "pbr": pbr, "gbr": gbr,
         });
         p.xs = xs;
@@ -279,7 +311,8 @@ fn sa_extra<P: Instrumented>(params: &Value) -> Extra<P> {
 pub fn real_extra(name: &str, params: &Value, n: u32) -> (String, Extra<RealProblem>) {
     match name {
         "real_sa" => ("sa".to_string(), sa_extra::<RealProblem>(params)),
-        "real_pso" | "real_pso|evals" | "real_pso|log4" => ("pso".to_string(), pso_extra(params, n)),
+        "real_pso" | "real_pso|evals" | "real_pso|log4" | "real_pso|scoped" | "real_pso|phase2" => ("pso".to_string(), pso_extra(params, n, false)),
+        "real_pso@AG" => ("pso".to_string(), pso_extra(params, n, true)),
         "real_cro" => ("cro".to_string(), cro_extra(params)),
         _ => ("-".to_string(), Box::new(|_, _, _| (Vec::new(), json!({})))),
     }
